@@ -543,8 +543,8 @@ def run(pm, ctx, rule, patterns, title=None):
     got = _selfcheck()
     if got != EXPECT:
         raise AnalysisError('memo-key rule self-check: %r' % (got,))
-    pats = [re.compile(p) for p in patterns]
-    mods = {f.module.name for q, f in pm.functions.items() if any(p.search(q) for p in pats)}
+    from .ownership import select
+    mods = {f.module.name for f in select(pm, patterns)}
     fp = getattr(pm, '_memo_footprints', None)
     if fp is None:
         fp = pm._memo_footprints = Footprints(pm)
